@@ -54,6 +54,7 @@ class Recorder:
         self.raw_times = []
         self.errors = []
         self.all_post_steps = []
+        self.sweep_res_ok = []
         self.work_snap = {}
         self.work_obs = {}
         self.work_bad = []
@@ -165,6 +166,14 @@ class RecHook(Hooks):
     def post_sweep(self, step, level_number):
         super().post_sweep(step, level_number)
         self._r('post_sweep', step, level_number)
+        r = current()
+        if r is not None and r.defect_check and level_number == 0 and step.status.stage == 'IT_FINE':
+            # the residual a user sees after every fine sweep is the defect of the values the step holds now
+            try:
+                ok = defect_matches(step.levels[0])
+            except Exception:  # noqa
+                ok = True  # data types the recomputation does not support
+            r.sweep_res_ok.append(bool(ok))
 
     def pre_comm(self, step, level_number):
         super().pre_comm(step, level_number)
@@ -233,6 +242,7 @@ def defect_matches(L):
     coll = L.sweep.coll
     M = coll.num_nodes
     counters = {k: v.niter for k, v in P.work_counters.items()}
+    own = getattr(P, '_verif_rhs_calls', None)
     try:
         f = [P.eval_f(L.u[m], L.time + L.dt * coll.nodes[m - 1]) for m in range(1, M + 1)]
 
@@ -255,6 +265,8 @@ def defect_matches(L):
     finally:
         for k, v in counters.items():
             P.work_counters[k].niter = v
+        if own is not None:
+            P._verif_rhs_calls = own
     rt = L.params.residual_type
     val = {'full_abs': max(norms), 'last_abs': norms[-1], 'full_rel': max(norms) / abs(L.u[0]),
            'last_rel': norms[-1] / abs(L.u[0])}.get(rt)
@@ -424,7 +436,8 @@ class TracedController(controller_nonMPI):
                     missing=z is None,
                 ))
         line = dict(k=kind, sg=sg, running=running, nact=nact, err=err or 'none', orc=orc, evs=r.events,
-                    ps=[{k: v for k, v in o.items() if k != 'obj'} for o in r.post_step_obs], **snap)
+                    ps=[{k: v for k, v in o.items() if k != 'obj'} for o in r.post_step_obs], sres_ok=all(r.sweep_res_ok), **snap)
+        r.sweep_res_ok = []
         r.events = []
         return line
 
